@@ -3,6 +3,7 @@ package sim
 import (
 	"fmt"
 	"sort"
+	"strings"
 
 	"go.etcd.io/raft/v3"
 	pb "go.etcd.io/raft/v3/raftpb"
@@ -347,6 +348,12 @@ func (w *World) healSuffix() {
 	}
 	why = reason
 	// classify documented exceptions
+	if k := w.classifyStall(); strings.HasPrefix(k, "F10") {
+		v := Violation{Prop: "C15", Msg: fmt.Sprintf("not converged %d election timeouts after faults stopped: %s%s", w.Cfg.HealBound, why, w.describe()), Step: w.step, Known: k}
+		w.Viol = append(w.Viol, v)
+		w.Stats["heal-known-f10"]++
+		return
+	}
 	if w.mon.twoVoterExc {
 		w.Stats["heal-two-voter-exception"]++
 		return
@@ -394,6 +401,11 @@ func (w *World) staleQuorumStall() bool {
 
 // classifyStall matches a non-converged final state against known findings.
 func (w *World) classifyStall() string {
+	if KnownFindings["F10"] {
+		if why := w.refusedByRemovedNodes(); why != "" {
+			return "F10: " + why
+		}
+	}
 	if !KnownFindings["F4"] {
 		return ""
 	}
@@ -408,6 +420,63 @@ func (w *World) classifyStall() string {
 		}
 	}
 	return ""
+}
+
+func promotableIn(st *raft.VerifState) bool {
+	for _, set := range voters(st.Conf) {
+		for _, id := range set {
+			if id == st.ID {
+				return true
+			}
+		}
+	}
+	return false
+}
+
+// refusedByRemovedNodes recognises the election deadlock of finding F10: there
+// is no leader, and no node that may campaign can collect a quorum of its own
+// (stale, usually joint) configuration without the vote of a live node that
+// may not campaign itself (it was removed or demoted according to its own,
+// newer configuration) and that refuses because its log is more up to date.
+func (w *World) refusedByRemovedNodes() string {
+	if w.topLeader() != nil {
+		return ""
+	}
+	blockers := map[uint64]bool{}
+	anyCandidate := false
+	for _, id := range w.ids {
+		m := w.nodes[id]
+		if !m.up() || !promotableIn(&m.st) {
+			continue
+		}
+		anyCandidate = true
+		grants := func(x uint64) bool {
+			o := w.nodes[x]
+			if o == nil || !o.up() {
+				return false
+			}
+			if x == id {
+				return true
+			}
+			upToDate := m.st.LastTerm > o.st.LastTerm || (m.st.LastTerm == o.st.LastTerm && m.st.LastIndex >= o.st.LastIndex)
+			if !upToDate && !promotableIn(&o.st) {
+				blockers[x] = true
+			}
+			return upToDate
+		}
+		if model.HasQuorum(grants, voters(m.st.Conf)...) {
+			return "" // this node can win: the stall has another cause
+		}
+	}
+	if !anyCandidate || len(blockers) == 0 {
+		return ""
+	}
+	var bs []uint64
+	for b := range blockers {
+		bs = append(bs, b)
+	}
+	sort.Slice(bs, func(i, j int) bool { return bs[i] < bs[j] })
+	return fmt.Sprintf("no electable node: every node that may campaign needs the vote of removed/demoted node(s) %v whose log is more up to date", bs)
 }
 
 // finalProbes: proposals accepted after convergence are committed and applied
